@@ -96,7 +96,12 @@ pub fn enumerate(family: &str, thorough: bool, f: &mut dyn FnMut(&str, Vec<u8>))
                         v.swap(i, i + 1);
                         f("swap", v.join(" ").into_bytes());
                     }
-                    for a in &alpha {
+                    for (ai, a) in alpha.iter().enumerate() {
+                        // the quick tier lays a checkerboard over the long hosts (every lexeme at every second position,
+                        // every position with every second lexeme); the short hosts and the thorough tier are complete
+                        if !thorough && n > 40 && (i + ai) % 2 == 1 {
+                            continue;
+                        }
                         let mut v = toks.clone();
                         v[i] = a.to_string();
                         f("replace", v.join(" ").into_bytes());
